@@ -205,6 +205,17 @@ def prop(case):
     out.append(')')
     stext = '\n'.join(out) + '\n'
     df = sdf.parse(stext)
+    if case['hdr'] % 2:
+        # the same parse result is first applied to the other model of the design (same module name, other branchforks setting):
+        # whatever it produces there must not leak into the annotation of this circuit
+        c_other = verilog.parse(text, tlib=tlib, branchforks=not bf)
+        other_io = df.iopaths(c_other, tlib)
+        if other_io.shape != (3, len(c_other.lines), 2, 2):
+            raise Violation(f'iopaths on the other model: shape {other_io.shape}, circuit has {len(c_other.lines)} lines')
+        try:
+            df.interconnects(c_other, tlib)
+        except AssertionError:
+            pass            # without branch forks some entries have no place (asserted by the annotator); not the subject here
     got_io = df.iopaths(c, tlib)
     if got_io.shape != exp_io.shape or not np.array_equal(got_io, exp_io):
         bad = np.argwhere(got_io != exp_io)[0] if got_io.shape == exp_io.shape else None
@@ -213,7 +224,7 @@ def prop(case):
                         f'{got_io[tuple(bad)]}, SDF file says {exp_io[tuple(bad)]}' if bad is not None else f'shape {got_io.shape} vs {exp_io.shape}')
                         + f' (branchforks={bf})\n{stext}')
     labels = [lib, f'branchforks={bf}']
-    if nic:
+    if True:                 # also for files without any interconnect entry: the array is all zero then
         got_ic = df.interconnects(c, tlib)
         if got_ic.shape != exp_ic.shape or not np.array_equal(got_ic, exp_ic):
             bad = np.argwhere(got_ic != exp_ic)[0] if got_ic.shape == exp_ic.shape else None
@@ -221,7 +232,7 @@ def prop(case):
             raise Violation(f'interconnects: ' + (f'[dataset {bad[0]}, line {bad[1]} ({l.driver.name}->{l.reader.name}), in-pol {bad[2]}, out-pol {bad[3]}] = '
                             f'{got_ic[tuple(bad)]}, SDF file says {exp_ic[tuple(bad)]}' if bad is not None else f'shape {got_ic.shape} vs {exp_ic.shape}')
                             + f' (branchforks={bf})\n{stext}')
-        labels.append('interconnects')
+        if nic: labels.append('interconnects')
         if port_ic: labels.append('interconnect_to_output_port')
     per_inst = {}
     for (iname, blk) in bindex:
@@ -230,6 +241,7 @@ def prop(case):
     if multi: labels.append('repeated_blocks')
     if per_inst.get(None, 0) >= 2: labels.append('repeated_interconnect_blocks')
     if edge_used: labels.append('edge_qualified')
+    if case['hdr'] % 2: labels.append('parse_result_used_for_two_models')
     if empty_used: labels.append('empty_value')
     return Obs(multi and edge_used and empty_used, labels, checks=2)
 
